@@ -421,3 +421,34 @@ Section Store.
     intros n Hn. rewrite (content_above cur1 n fsm HK Hn). apply (content_above cur1 n fs HK0 Hn).
   Qed.
 End Store.
+
+(* ------------------------------------------------------------------ beyond 100000 files (witness) *)
+Lemma neq_by_last (A B : bytes) (c d : byte) : c <> d -> A ++ [c] <> B ++ [d].
+Proof. intros Hcd H. apply (f_equal (fun l => last l c)) in H. rewrite !last_last in H. contradiction. Qed.
+
+Lemma read_to_last T fs : read_to T fs = read_upto (N.to_nat T) fs ++ content T fs.
+Proof. unfold read_to. cbn [read_upto]. now rewrite N2Nat.id. Qed.
+
+Import Coq.Init.Byte.
+Definition w_magic : bytes := [xfa; xbf; xb5; xda].
+Definition w_fs : files := [(99999%N, repeat x01 50); (100000%N, repeat x02 50)].
+Definition w_blocks : list bytes := [[xaa]].
+
+(* with files 99999 and 100000 present the code picks "blk99999.dat" (the lexicographically last name) and appends
+   the next small block there, i.e. IN FRONT OF the data already in blk100000.dat *)
+Lemma beyond_100000_refuted :
+  Forall (fun n => (n <= 100000)%N) (keys w_fs) /\ lex_ltb (blk_name 100000) (blk_name 99999) = true /\
+  current_file w_fs = 99999%N /\
+  read_all (snd (write_blocks 100 w_magic w_fs w_blocks)) <> read_all w_fs ++ records w_magic w_blocks.
+Proof.
+  split; [repeat constructor; cbv; discriminate|]. split; [exact name_order_fails_at_100000|].
+  split; [vm_compute; reflexivity|].
+  set (fs' := snd (write_blocks 100 w_magic w_fs w_blocks)).
+  assert (T' : top fs' = 100000%N) by (vm_compute; reflexivity).
+  assert (T0 : top w_fs = 100000%N) by (vm_compute; reflexivity).
+  assert (C' : content 100000 fs' = repeat x02 49 ++ [x02]) by (vm_compute; reflexivity).
+  assert (R : records w_magic w_blocks = (w_magic ++ [x01; x00; x00; x00]) ++ [xaa]) by (vm_compute; reflexivity).
+  clearbody fs'. unfold read_all. rewrite T', T0, !read_to_last, C', R.
+  generalize (read_upto (N.to_nat 100000) fs') (read_upto (N.to_nat 100000) w_fs) (content 100000 w_fs).
+  intros X Y Z. rewrite !app_assoc. apply neq_by_last. discriminate.
+Qed.
